@@ -47,6 +47,17 @@ def tree_hash():
     return h.hexdigest()[:20]
 
 
+def spec_hash():
+    h = hashlib.sha256()
+    for d in ("spec",):
+        for fn in sorted(os.listdir(os.path.join(common.VERIF, d))):
+            if fn.endswith((".tla", ".cfg")):
+                h.update(open(os.path.join(common.VERIF, d, fn), "rb").read())
+    for fn in ("l1.py", "l1configs.py"):
+        h.update(open(os.path.join(common.VERIF, "tools", fn), "rb").read())
+    return h.hexdigest()[:20]
+
+
 def sched_key(s):
     return hashlib.sha1(json.dumps({"cfg": s["cfg"], "cmds": s["cmds"]}, sort_keys=True).encode()).hexdigest()
 
@@ -65,13 +76,28 @@ def run_pipeline(tier, seed, log=print):
     except ImportError:
         have_l1 = False
     if have_l1:
-        mc = l1.model_check(tier, seed, wd, log)
-        res["tlc"] = mc["runs"]
-        res["mc_viol"] = mc["violations"]
-        gen = l1.generate(tier, seed, wd, log)
-        for s in gen:
+        # the model-checking half depends only on the specification (not on /repo): cache it by spec content
+        l1key = "%s-%s-%d" % (spec_hash(), tier, seed)
+        l1dir = os.path.join(common.WORK, "l1cache")
+        os.makedirs(l1dir, exist_ok=True)
+        l1path = os.path.join(l1dir, l1key + ".json")
+        if os.path.exists(l1path) and os.environ.get("VERIF_NOCACHE") != "1":
+            data = json.load(open(l1path))
+            log("model-checking results and generated behaviours re-used (specification unchanged)")
+        else:
+            mc = l1.model_check(tier, seed, wd, log)
+            gen = l1.generate(tier, seed, wd, log)
+            data = {"runs": mc["runs"], "violations": mc["violations"], "scheds": gen}
+            for fn in os.listdir(l1dir):
+                os.remove(os.path.join(l1dir, fn)) if fn.endswith("-%s-%d.json" % (tier, seed)) else None
+            with open(l1path + ".tmp", "w") as f:
+                json.dump(data, f)
+            os.replace(l1path + ".tmp", l1path)
+        res["tlc"] = data["runs"]
+        res["mc_viol"] = data["violations"]
+        for s in data["scheds"]:
             s["driver"] = "tlc"
-        scheds += gen
+        scheds += data["scheds"]
     # -- 2b. directed + random ---------------------------------------------------------------------------
     for name, s in sorted(directed.DIRECTED.items()):
         scheds.append(dict(s, driver="directed", name=name))
